@@ -340,7 +340,7 @@ def _add_zid_to_line(zid: str, line: str) -> str:
 
     # Remove a YYYY-MM-DD create date if one existed prior to adding a ZID to
     # the note.
-    if len(words[0]) == 10:
+    if words and len(words[0]) == 10:
         dash_idices = (4, 7)
         for i, ch in enumerate(words[0][:10]):
             if i not in dash_idices and not ch.isdigit():
@@ -348,6 +348,8 @@ def _add_zid_to_line(zid: str, line: str) -> str:
         else:
             words.pop(0)
 
+    if not words:
+        return f"{line_before_zid}{zid}"
     return f"{line_before_zid}{zid} {' '.join(words)}"
 
 
@@ -421,6 +423,8 @@ def _add_or_update_modify_date(short_modify_date: str, line: str) -> str:
         _LOGGER.debug(
             "Removing old modify date", old_modify_date=old_modify_date
         )
+        while len(words) > 1 and words[0] == "":
+            words.pop(0)
     return f"{line_before_zid}{short_modify_date} {' '.join(words)}"
 
 
@@ -433,9 +437,23 @@ def _pop_line_before_zid(words: list[str]) -> str:
 
     symbol = words.pop(0)
 
+    # A priority can only be used by todos, must directly follow the todo's
+    # symbol, and must be followed by the todo's text (otherwise it IS the
+    # todo's text).
     priority = ""
-    if len(words[0]) == 2 and words[0][0] == "P" and words[0][1].isdigit():
+    if (
+        symbol != "-"
+        and len(words) > 1
+        and len(words[0]) == 2
+        and words[0][0] == "P"
+        and words[0][1].isdigit()
+    ):
         priority = f"{words.pop(0)} "
+
+    # Drop any extra spaces found in front of the note's first word, so the
+    # text written to the file matches the (stripped) body stored in the DB.
+    while len(words) > 1 and words[0] == "":
+        words.pop(0)
     return f"{spaces}{symbol} {priority}"
 
 
